@@ -206,6 +206,72 @@ def plan_c07(tier, seed):
                 assumptions=ASSUME_COMMON, minima={"cases": 300, "distinct_nontrivial": 200, "next_iteration": 5000, "alloc": 5000})
 
 
+ROUTING_KINDS = ["fallback<leaf,leaf>", "fallback<fallback<leaf,leaf>,leaf>", "fallback<leaf,fallback<leaf,leaf>>",
+                 "fallback<fallback<leaf,leaf>,fallback<leaf,leaf>>", "aligned<fallback<leaf,leaf>>", "tracked<fallback<fallback<leaf,leaf>,leaf>>",
+                 "fallback<pool<node>/fixed,leaf>", "fallback<pool<array>/fixed,leaf>", "fallback<stack/fixed,leaf>",
+                 "fallback<coll<node,log2>/fixed,leaf>", "fallback<tracked<leaf>,leaf>", "segregator<threshold(32) leaf,leaf>"]
+SIBLING_KINDS = ["pool<node>", "pool<array>", "pool<small>", "coll<node,log2>", "coll<array,identity>", "stack", "iteration<2>", "mixed"]
+FORWARD_KINDS = ["adapter<leaf>", "adapter<leaf-min>", "reference<leaf>", "any_reference<leaf>", "any_reference<leaf-min>", "thread_safe<leaf>",
+                 "aligned<leaf>", "aligned<leaf-min>", "tracked<leaf>", "tracked<leaf-min>", "segregator<threshold(64) leaf,leaf>",
+                 "segregator<64,256,leaf>", "memory_resource<leaf>", "memory_resource<leaf-varying-max>", "tracked<aligned<leaf>>",
+                 "aligned<tracked<leaf>>", "thread_safe<aligned<leaf-min>>", "segregator<threshold(256) tracked<leaf>,aligned<leaf>>",
+                 "tracked<segregator<threshold(64) leaf,leaf>>", "reference<tracked<aligned<leaf>>>",
+                 "memory_resource<segregator<threshold(64) leaf,leaf>>", "std_allocator+deleters"]
+
+
+def plan_c08(tier, seed):
+    q = tier == "quick"
+    cfgs = Q_CFGS if q else T_CFGS
+    n = _scale(tier, 60, 1500)
+    ck = _scale(tier, 60, 150)
+    jobs = []
+    for cfg in cfgs:
+        for k in SIBLING_KINDS:
+            jobs += [Job("h_compose", cfg, "asan", "siblings", k, c, ops=_scale(tier, 200, 400), cpu=300) for c in chunks(n, ck)]
+        for k in ROUTING_KINDS:
+            jobs += [Job("h_compose", cfg, "asan", "routing", k, c, ops=_scale(tier, 200, 400), cpu=300) for c in chunks(n, ck)]
+    # try_deallocate of own memory through the history engines (refused-own clause)
+    jobs += pool_jobs(cfgs, ["walk"], n // 2, 250, ck) + coll_jobs(cfgs, ["walk"], n // 4, 250, ck)
+    return dict(jobs=jobs, level="exploration",
+                rule="(siblings) three allocators of one composable kind (pools, collections, stack, iteration, mixed) share one upstream that carves "
+                     "their blocks back to back, with a static_allocator's storage placed exactly between two of the blocks (its first node starts one "
+                     "past the end of a sibling's block, its last can end where the next block starts); every live allocation is offered to every "
+                     "allocator that did not hand it out (must be refused, capacity figures and all live patterns unchanged) and then to its owner "
+                     "(must be accepted). (routing) fallback / segregator / aligned / tracked compositions up to depth 3 over instrumented composable "
+                     "leaves and real fixed-size pools, stacks and collections as default allocator, phases that fill the default until it spills and "
+                     "drain it again; each leaf checks that what it handed out comes back to it once, with the shape of its own allocation. "
+                     "non-trivial = every completed case; distinct = FNV-1a of kind, configuration and operation sequence",
+                assumptions=ASSUME_COMMON + ["nested fallback_allocators need distinct sub-allocator types to compile (ambiguous ebo_storage bases otherwise)"],
+                minima={"cases": 500, "distinct_nontrivial": 300, "foreign_offers": 50000, "own_releases": 5000, "served_by_leaf": 5000,
+                        "served_by_real_allocator": 1000, "alloc_static": 300})
+
+
+def plan_c09(tier, seed):
+    q = tier == "quick"
+    cfgs = ["rwd", "dbg"] if q else ["rel", "rwd", "dbg"]
+    n = _scale(tier, 40, 1000)
+    ck = _scale(tier, 40, 200)
+    jobs = []
+    for cfg in cfgs:
+        for k in FORWARD_KINDS:
+            jobs += [Job("h_compose", cfg, "asan", "forward", k, c, ops=_scale(tier, 200, 1000), cpu=300) for c in chunks(n, ck)]
+        for k in ("tracked<fallback<fallback<leaf,leaf>,leaf>>", "fallback<tracked<leaf>,leaf>", "aligned<fallback<leaf,leaf>>"):
+            jobs += [Job("h_compose", cfg, "asan", "routing", k, c, ops=_scale(tier, 200, 400), cpu=300) for c in chunks(n, ck)]
+    return dict(jobs=jobs, level="exploration",
+                rule="case = (configuration, wrapper composition, index). 22 compositions of allocator_adapter / allocator_reference / "
+                     "any_allocator_reference / thread_safe_allocator / aligned_allocator / tracked_allocator / binary_segregator / segregator / "
+                     "memory_resource_adapter+memory_resource_allocator / std_allocator / deleters and smart-pointer helpers, depth 1 to 3, over a "
+                     "full-interface leaf, a minimal-interface leaf and a leaf whose max_node_size() changes; seeded requests of 1..70000 bytes, "
+                     "alignment 1..16, count==1 arrays, sizes on both sides of the thresholds. Oracle at the leaf: one leaf allocation per request with "
+                     "at least the bytes and alignment asked for, one leaf release per release on the same leaf with the shape of that leaf "
+                     "allocation; trackers see each successful operation once with the top-level shape. non-trivial = every completed case; "
+                     "distinct = FNV-1a of kind, configuration and operation sequence",
+                assumptions=ASSUME_COMMON + ["tracked_allocator is only type-erased over composable allocators (it declares the composable members "
+                                             "unconditionally; a compile-time matter)"],
+                minima={"cases": 500, "distinct_nontrivial": 300, "alloc_node": 20000, "alloc_array": 10000, "release": 20000, "std_allocate": 2000,
+                        "smart_pointers": 300})
+
+
 JOINT_KINDS = ["J<1/1,4/4>", "J<3/1,16/16>", "J<16/16,2/2>", "J<24/8,12/4>", "J<8/8,32/16>", "J<6/2,5/1>"]
 
 
@@ -415,6 +481,8 @@ PLANS = {
     "C05": plan_c05,
     "C06": plan_c06,
     "C07": plan_c07,
+    "C08": plan_c08,
+    "C09": plan_c09,
     "C11": plan_c11,
     "C12": plan_c12,
     "C20": plan_c20,
